@@ -310,6 +310,85 @@ fn fill_stream(rng: &mut Rng, n: usize, nan_free: bool) -> Vec<u8> {
     v
 }
 
+fn half_non_nan(rng: &mut Rng) -> u16 {
+    loop {
+        let h: u16 = match rng.below(8) {
+            0 => 0,
+            1 => 0x8000,
+            2 => rng.below(0x400) as u16,
+            3 => 0x7BFF,
+            4 => 0x7C00 | ((rng.below(2) as u16) << 15),
+            5 => 0x3C00,
+            _ => rng.below(0x10000) as u16,
+        };
+        if (h & 0x7FFF) <= 0x7C00 {
+            return h;
+        }
+    }
+}
+
+/// canonical raw bytes of one element (what the writer reproduces), see `Spec/MdlEdit.lean`
+pub fn canonical_raw(rng: &mut Rng, usage: u8, ty: u8) -> Vec<u8> {
+    let mut v = Vec::new();
+    match ty {
+        2 => {
+            for _ in 0..3 {
+                v.extend_from_slice(&interesting_f32(rng).to_le_bytes());
+            }
+        }
+        3 => {
+            for i in 0..4 {
+                let x = if usage == 0 && i == 3 { 0x3F80_0000 } else { interesting_f32(rng) };
+                v.extend_from_slice(&x.to_le_bytes());
+            }
+        }
+        14 => {
+            for i in 0..4 {
+                let h = if usage == 0 && i == 3 {
+                    0x3C00
+                } else if usage == 3 && i == 3 {
+                    0
+                } else {
+                    half_non_nan(rng)
+                };
+                v.extend_from_slice(&h.to_le_bytes());
+            }
+        }
+        8 | 5 => {
+            for i in 0..4 {
+                let b = if usage == 6 && i == 3 {
+                    if rng.chance(1, 2) { 255 } else { 0 }
+                } else {
+                    match rng.below(6) {
+                        0 => 0,
+                        1 => 255,
+                        2 => 127,
+                        3 => 128,
+                        _ => rng.below(256) as u8,
+                    }
+                };
+                v.push(b);
+            }
+        }
+        _ => {}
+    }
+    v
+}
+
+/// `vcount` canonical records per stream for a declaration with the given strides
+pub fn canonical_streams(rng: &mut Rng, decl: &[GElem], strides: &[u8], vcount: usize) -> Vec<(u8, Vec<u8>)> {
+    let mut streams: Vec<(u8, Vec<u8>)> = strides.iter().map(|&st| (st, vec![0u8; st as usize * vcount])).collect();
+    for k in 0..vcount {
+        for e in decl {
+            let raw = canonical_raw(rng, e.usage, e.ty);
+            let (st, data) = &mut streams[e.stream as usize];
+            let at = k * (*st as usize) + e.offset as usize;
+            data[at..at + raw.len()].copy_from_slice(&raw);
+        }
+    }
+    streams
+}
+
 pub struct GenOpts {
     pub max_meshes: usize,
     pub max_vertices: usize,
@@ -359,6 +438,10 @@ pub fn gen_mesh(rng: &mut Rng, o: &GenOpts, start_index: usize) -> GMesh {
         let slack = if rng.chance(1, 3) { rng.below(9) as usize } else { 0 };
         let stride = (used[s] + slack).min(255);
         streams.push((stride as u8, fill_stream(rng, stride * vcount, o.canonical)));
+    }
+    if o.canonical {
+        let strides: Vec<u8> = streams.iter().map(|x| x.0).collect();
+        streams = canonical_streams(rng, &decl, &strides, vcount);
     }
     let nidx = match rng.below(6) {
         0 => 0,
@@ -453,7 +536,7 @@ pub fn gen_model(rng: &mut Rng, o: &GenOpts) -> GModel {
     m.bbb = (0..m.bones.len()).map(|_| fill_stream(rng, 32, o.canonical)).collect();
     for l in 0..3 {
         let mut lod = GLod { mid: fill_stream(rng, 28, o.canonical), edge_off: rng.u32_edge(), poly: rng.u32_edge(), meshes: vec![] };
-        let nm = if l < m.lodn as usize || rng.chance(1, 6) { rng.range(if l == 0 { 1 } else { 0 }, o.max_meshes as u64) as usize } else { 0 };
+        let nm = if l < m.lodn as usize || (!o.canonical && rng.chance(1, 6)) { rng.range(if l == 0 { 1 } else { 0 }, o.max_meshes as u64) as usize } else { 0 };
         let mut start = 0usize;
         for _ in 0..nm {
             let mesh = gen_mesh(rng, o, start);
@@ -475,7 +558,9 @@ pub fn gen_model(rng: &mut Rng, o: &GenOpts) -> GModel {
             sh.count[l] = k as u16;
             for _ in 0..k {
                 // pick a mesh of this LOD; its start index is the sum of the preceding index words
-                let mi = rng.below(m.lods[l].meshes.len() as u64) as usize;
+                // the reader indexes the mesh-local index list with the LOD-global index, so only the
+                // first mesh of a LOD (start 0) can carry shape values without leaving the list
+                let mi = if rng.chance(6, 7) { 0 } else { rng.below(m.lods[l].meshes.len() as u64) as usize };
                 let start: usize = m.lods[l].meshes[..mi].iter().map(|x| x.indices.len() + x.index_pad).sum();
                 let mesh = &m.lods[l].meshes[mi];
                 let nv = rng.below(5) as usize;
@@ -483,8 +568,14 @@ pub fn gen_model(rng: &mut Rng, o: &GenOpts) -> GModel {
                 let mut pushed = 0u32;
                 for _ in 0..nv {
                     let ni = mesh.indices.len();
-                    let base = if ni > 0 && !rng.chance(1, 12) { start + rng.below(ni as u64) as usize } else { rng.below(70) as usize };
-                    let repl = if mesh.vcount > 0 && !rng.chance(1, 30) { rng.below(mesh.vcount as u64) as u16 } else { rng.below(400) as u16 };
+                    let base = if ni > start && !rng.chance(1, 40) {
+                        start + rng.below((ni - start) as u64) as usize
+                    } else if ni > 0 && !rng.chance(1, 12) {
+                        start + rng.below(ni as u64) as usize
+                    } else {
+                        rng.below(70) as usize
+                    };
+                    let repl = if mesh.vcount > 0 && !rng.chance(1, 60) { rng.below(mesh.vcount as u64) as u16 } else { rng.below(400) as u16 };
                     m.shv.push((base as u16, repl));
                     pushed += 1;
                 }
@@ -644,7 +735,7 @@ pub fn mdl_text(m: &MDL) -> String {
 
 /// `panic:<file>:<line>` -> `panic` (the model does not carry source locations)
 pub fn strip_panic(s: String) -> String {
-    if s.starts_with("panic:") { "panic".into() } else { s }
+    if s.starts_with("panic:") && std::env::var("VERIF_PANICLOC").is_err() { "panic".into() } else { s }
 }
 
 pub fn run(case: &str, input: &str) -> String {
